@@ -5,15 +5,15 @@ import json, subprocess
 CHECKS = {
  "C01": dict(engine="E1-lattice", ref="5/C01",
    technique="bounded-exhaustive lattice enumeration of (robot, pose class, entry point, previous) on the real IK, each answer pushed through an independent FK model",
-   text="Every point of robots R (geometry incl. negative lengths x signs x offsets incl. beyond half a turn x dof 5/6) x poses (FK_ref of a joint lattice incl. J5 in {0, pi, +-1e-9, +-thr/2} and stretched elbow, scaled-out unreachable poses, wrist centre on the J1 axis, NaN/inf/1e308/denormal in every pose component, un-normalised quaternions) x 11 entry-point/previous variants is executed; every returned vector must be finite, map through FK_ref onto the request within 1e-6 m / 1e-6 rad (point+axis for 5-DOF), be normalised for plain inverse, and be absent for unreachable poses; panics are caught and judged.",
+   text="Every point of robots R (geometry incl. negative lengths x signs x offsets incl. beyond half a turn x dof 5/6) x poses (FK_ref of a joint lattice incl. J5 in {0, pi, +-1e-9, +-thr/2} and stretched elbow, scaled-out unreachable poses, wrist centre on the J1 axis, NaN/inf/1e308/denormal in every pose component, un-normalised quaternions) x 11 entry-point/previous variants is executed; every returned vector must be finite, map through FK_ref onto the request within 1e-6 m / 1e-6 rad (point+axis for 5-DOF), be normalised for plain inverse, and be absent for unreachable poses; panics are caught and judged. Threshold sweep (J5 -> k*pi on 5 robots and one length parameter -> 0): the axis that approaches a special value is enumerated along a magnitude ladder (13 per decade, 1e-12..1e-2, both sides, plus neighbours/squares/roots of the float literals of the source file under test).",
    note="Trusted: FK_ref, the arm-reach oracle used to label poses unreachable, nalgebra conversions. Lattice-relative."),
  "C02": dict(engine="E1-lattice", ref="5/C02",
    technique="bounded-exhaustive lattice enumeration with an oracle-computed branch count (independent arm IK) and closure re-solves",
-   text="For every lattice configuration outside oracle-computed singularity/reach margins: q is among inverse(FK_ref(q)), the number of answers equals 2 x the number of arm branches an independent positional arm IK finds, wrist-flipped twins are present, no duplicates, and every answer's pose yields a set of the same size. Both 4- and 8-answer poses must occur or the run is void.",
+   text="For every lattice configuration outside oracle-computed singularity/reach margins: q is among inverse(FK_ref(q)), the number of answers equals 2 x the number of arm branches an independent positional arm IK finds, wrist-flipped twins are present, no duplicates, and every answer's pose yields a set of the same size. Both 4- and 8-answer poses must occur or the run is void. Threshold sweep (one length parameter (a1, a2, b, c4) -> 0): the axis that approaches a special value is enumerated along a magnitude ladder (13 per decade, 1e-12..1e-2, both sides, plus neighbours/squares/roots of the float literals of the source file under test).",
    note="Trusted: FK_ref and the closed-form arm oracle in the harness; margins 1e-3 (sin), 1e-6 (reach cosine), 1 mm (shoulder)."),
  "C03": dict(engine="E1-lattice", ref="5/C03",
    technique="bounded-exhaustive lattice enumeration of (robot, joint vector) on the real FK code against an independent link-chain model",
-   text="Every point of a finite product lattice (geometries incl. b!=0/a2!=0, zero and negative link lengths x all 64 sign patterns x offsets x joint values incl. |q|>>2pi) is executed on forward and forward_with_joint_poses and compared with FK_ref (elementary-transform chain, cross-validated in the same run on 2048 recorded cases of an independent C++ implementation); prefix dependence is checked bit-exactly, link separations to 1e-12.",
+   text="Every point of a finite product lattice (geometries incl. b!=0/a2!=0, zero and negative link lengths x all 64 sign patterns x offsets x joint values incl. |q|>>2pi) is executed on forward and forward_with_joint_poses and compared with FK_ref (elementary-transform chain, cross-validated in the same run on 2048 recorded cases of an independent C++ implementation); prefix dependence is checked bit-exactly, link separations to 1e-12. Threshold sweep (one length parameter -> 0; dof-5 parameter sets): the axis that approaches a special value is enumerated along a magnitude ladder (13 per decade, 1e-12..1e-2, both sides, plus neighbours/squares/roots of the float literals of the source file under test).",
    note="Trusted: FK_ref (hand-written f64 matrices), nalgebra quaternion<->matrix conversion, the lattice as printed in evidence."),
  "C04": dict(engine="E1-lattice + E2-graph", ref="5/C04",
    technique="lattice enumeration of continuation calls plus explicit-state search (stateright BFS, run twice) over joint-space trajectories whose transitions call the real solver",
@@ -21,59 +21,59 @@ CHECKS = {
    note="State identity in E2 is the lattice node (returned vectors within 1e-9 are merged; checked on every transition). A coarser-than-dense lattice is reported as a machinery error, not a verdict."),
  "C05": dict(engine="E1-lattice", ref="5/C05",
    technique="bounded-exhaustive lattice around every multiple of pi of J5 (both frames: model angle and raw joint value) against a geometric axis-collinearity oracle; continuity lattice with oracle-computed preconditions",
-   text="Detection: robots (signs x offsets incl. J5 offset) x t5 = k*pi + d for k in -3..3 and d on both sides of the 0.01 degree band x wrappers; Some(A) iff the FK_ref axes of joints 4 and 6 are within the band of collinear. Continuity: exactly singular poses whose arm sensitivity and other-branch conditions (computed by the oracle) qualify: previous comes back first, a singular answer moves J4 and J6 together (previous given explicitly, or as CONSTRAINT_CENTERED on a robot whose constraint centres are that vector).",
+   text="Detection: robots (signs x offsets incl. J5 offset) x t5 = k*pi + d for k in -3..3 and d on both sides of the 0.01 degree band x wrappers; Some(A) iff the FK_ref axes of joints 4 and 6 are within the band of collinear. Continuity: exactly singular poses whose arm sensitivity and other-branch conditions (computed by the oracle) qualify: previous comes back first, a singular answer moves J4 and J6 together (previous given explicitly, or as CONSTRAINT_CENTERED on a robot whose constraint centres are that vector). Threshold sweep (axis-aligned arm postures (J1 on the base axes, links horizontal/vertical) x 5x5 J4/J6): the axis that approaches a special value is enumerated along a magnitude ladder (13 per decade, 1e-12..1e-2, both sides, plus neighbours/squares/roots of the float literals of the source file under test).",
    note="Band edge +-5% skipped. Continuity is demanded only under the two preconditions named in the property, computed independently of the solver."),
  "C06": dict(engine="E1-lattice", ref="5/C06",
    technique="bounded-exhaustive lattice over robots (dof 5/6), stacks, J6 alphabet and the four entry points against the stack's reference FK",
-   text="Every answer's tool point and tool axis are checked through the reference FK of the stack, J6 must be bit-equal to the caller's value (0 for plain inverse on a 5-DOF robot), the originating J1..J5 must be present and the list non-empty on regular poses; history variant: the previous vector already holds the requested tool point but another tool axis.",
+   text="Every answer's tool point and tool axis are checked through the reference FK of the stack, J6 must be bit-equal to the caller's value (0 for plain inverse on a 5-DOF robot), the originating J1..J5 must be present and the list non-empty on regular poses; history variant: the previous vector already holds the requested tool point but another tool axis. Threshold sweep (J5 -> 0 and pi, completeness from 1.05 x the band): the axis that approaches a special value is enumerated along a magnitude ladder (13 per decade, 1e-12..1e-2, both sides, plus neighbours/squares/roots of the float literals of the source file under test).",
    note="Trusted: FK_ref and the stack model. Lattice-relative."),
  "C07": dict(engine="E1-lattice + E2-graph", ref="5/C07",
    technique="exhaustive enumeration of (from, to, angle) on a degree lattice of [-720,720]^3 against arc membership by definition; BFS over constructor/update_range sequences",
-   text="All (from,to) pairs x all angles on the 5-degree (thorough 3-degree) lattice, a third of the angles moved off-lattice by irrational shifts, three constructors, neighbours wide or from==to; oracle = arc membership modulo 2pi; plus centre accepted, filter == pointwise compliant, and all constructor/update_range sequences to depth 3 compared field by field with a fresh constructor.",
+   text="All (from,to) pairs x all angles on the 5-degree (thorough 3-degree) lattice, a third of the angles moved off-lattice by irrational shifts, three constructors, neighbours wide or from==to; oracle = arc membership modulo 2pi; plus centre accepted, filter == pointwise compliant, and all constructor/update_range sequences to depth 3 compared field by field with a fresh constructor. Threshold sweep (range width -> 0 and -> a full turn, signed zeros): the axis that approaches a special value is enumerated along a magnitude ladder (13 per decade, 1e-12..1e-2, both sides, plus neighbours/squares/roots of the float literals of the source file under test).",
    note="Lattice points on an arc end are skipped except an exactly decidable family; reversed ranges with from = to (mod 360) are ambiguous in the statement and skipped."),
  "C08": dict(engine="E2-graph + E1-lattice", ref="5/C08",
    technique="breadth-first enumeration of wrapper stacks (depth <= 3 thorough) with a differential oracle: constrained stack vs the identical unconstrained stack filtered by arc membership",
-   text="For every stack over {tool, base, frame, parallelogram} around a constrained robot (dof 5/6), every limit set (window, wrapping, wide, from==to, excluding, around the singular recovery, narrow J4 window with a previous outside it), weight, pose, previous and entry point: answers == compliant subset of the unconstrained answers (both inclusions, mod 2pi); constraints() delegated field by field.",
+   text="For every stack over {tool, base, frame, parallelogram} around a constrained robot (dof 5/6), every limit set (window, wrapping, wide, from==to, excluding, around the singular recovery, narrow J4 window with a previous outside it, almost-full-turn ranges forbidding an 8e-4 rad sliver around a solution), weight, pose, previous and entry point: answers == compliant subset of the unconstrained answers (both inclusions, mod 2pi); constraints() delegated field by field.",
    note="Parallelogram limits are read on the wrapped robot's joints (weaker reading). Singular answers are not compared under CONSTRAINT_CENTERED (reference differs by design)."),
  "C09": dict(engine="E2-graph + E1-lattice", ref="5/C09",
    technique="breadth-first enumeration of every tool/base/frame sequence of length 1..3 over an isometry alphabet; per stack the full delegation matrix of trait entry points is executed and compared with the composed reference",
-   text="1884 (quick) / 6174 (thorough) stacks x robots x joint vectors x previous vectors {near the solution, CONSTRAINT_CENTERED with off-zero constraint centres, multi-turn}: forward, link poses, singularity, constraints, and the four inverse entry points (round trip through the reference FK, continuation order/representative, J6 contracts bit-exact); LinearAxis (3 axes) and Gantry forward via verification-only constructors.",
+   text="1884 (quick) / 6174 (thorough) stacks x robots x joint vectors x previous vectors {near the solution, CONSTRAINT_CENTERED with off-zero constraint centres, multi-turn}: forward, link poses, singularity, constraints, and the four inverse entry points (round trip through the reference FK, continuation order/representative, J6 contracts bit-exact); LinearAxis (3 axes) and Gantry forward via verification-only constructors. Threshold sweep (wrapper rotation/translation -> identity, alone and nested): the axis that approaches a special value is enumerated along a magnitude ladder (13 per decade, 1e-12..1e-2, both sides, plus neighbours/squares/roots of the float literals of the source file under test).",
    note="5-DOF clauses are evaluated on stacks whose tools/frames are axial, as the property presupposes."),
  "C10": dict(engine="E1-lattice", ref="5/C10",
    technique="bounded-exhaustive enumeration of cell configurations x postures x safety tables x modes x entry points against a brute-force all-pairs oracle with an own triangle-distance; first-collision mode re-run in rayon pools 1..16",
-   text="Synthetic box robot (vertex counts varied so the pre-filter's 'smaller mesh' choice flips) with/without tool and base, 11 environment layouts incl. bodies inside the inflated box of a link and enclosing bodies, 192 postures, tables: touch, 2/5 cm, mixed, per-pair overrides, NEVER_COLLIDES on each candidate pair in both key orders, NEVER_COLLIDES as environment / robot default with non-negative per-pair overrides; collision_details/collides/RobotBody::collides/near (with a table different from the body's); plus the bundled RX160 STL meshes in the cell of the crate's example, decided pairwise by parry's exact queries. All-mode list must equal the oracle set, first-mode a non-empty subset iff the set is non-empty, no-check nothing; pool sizes 1,2,4,8,16 must agree.",
+   text="Synthetic box robot (vertex counts varied so the pre-filter's 'smaller mesh' choice flips) with/without tool and base, 11 environment layouts incl. bodies inside the inflated box of a link and enclosing bodies, 192 postures, tables: touch, 2/5 cm, mixed, per-pair overrides, NEVER_COLLIDES on each candidate pair in both key orders, NEVER_COLLIDES as environment / robot default with non-negative per-pair overrides; pools of every size 1..16 whenever exactly one pair collides in first-collision mode; collision_details/collides/RobotBody::collides/near (with a table different from the body's); plus the bundled RX160 STL meshes in the cell of the crate's example, decided pairwise by parry's exact queries. All-mode list must equal the oracle set, first-mode a non-empty subset iff the set is non-empty, no-check nothing; pool sizes 1,2,4,8,16 must agree.",
    note="The oracle (own f64 segment/triangle code) is cross-checked against parry's exact queries in every run; pairs within 1 mm of their limit are not judged; tasks are assumed atomic (textual audit of collisions.rs each run, exit 2 if it no longer holds)."),
  "C11": dict(engine="E1-lattice", ref="5/C11",
    technique="bounded-exhaustive enumeration of constructors x frames x environments x safety x limits x postures with a differential oracle (ordered filter of the underlying stack's answers)",
-   text="Each inverse entry point of KinematicsWithShape must return exactly the underlying stack's answers with !collides, in unchanged order, bit-equal; forward/link poses/singularity bit-equal; the underlying stack is built by the harness from the same pieces (tool over base over the limited robot), and constraints() must return the limits given to the constructor field by field (incl. hand-set public centers/tolerances); the constructed stack equals base*FK_ref*tool; positioned_robot places meshes at the link poses; previous in {near, CONSTRAINT_CENTERED, far}.",
+   text="Each inverse entry point of KinematicsWithShape must return exactly the underlying stack's answers with !collides, in unchanged order, bit-equal; forward/link poses/singularity bit-equal; the underlying stack is built by the harness from the same pieces (tool over base over the limited robot), and constraints() must return the limits given to the constructor field by field (incl. hand-set public centers/tolerances); the constructed stack equals base*FK_ref*tool; positioned_robot places meshes at the link poses; previous in {near, CONSTRAINT_CENTERED, far}; a second robot (same environment size, obstacles moved / other safety) is queried on the same thread just before each call (no state shared between instances); verdicts for the reference filter come from collision_details.",
    note="collides() itself is tied to the pair oracle by C10. Cases where collisions remove some but not all answers must occur or the run is void."),
  "C12": dict(engine="E1-lattice + E4-sched", ref="5/C12",
    technique="scenario lattice on the real planner with scripted RNG, plus stateless DFS over all (or preemption-bounded) interleavings of the strategy race under a token-passing controller at the stop-flag hook points; rayon runs validated against explored traces",
-   text="E1: ~10k scenarios (start, stroke length/shape incl. short legs that turn the tool so that rotation dictates the check steps, check steps, cost limit, recursion depth, include-interpolation, seven obstacle layouts incl. one that blocks an arm branch mid-stroke only, safety, limits) plus ~1k scenarios run one at a time under the event recorder: every Ok path is judged for collision freedom (collides + brute-force pairs), limits, start configuration, ordered LAND/TRACE/PARK embedding with poses reproduced by the reference FK, linearity of LIN_INTERP waypoints, transition cost, and absence of LIN_INTERP when not requested. E4: 2-strategy races explored completely, 4-strategy races (one of them with strategies that really fail mid-stroke) with preemption bound 1 (thorough 2); success must be schedule independent; 20 rayon runs per scenario in pools 1..16 must reproduce explored per-strategy hook sequences.",
+   text="E1: ~10k scenarios (start, stroke length/shape incl. short legs that turn the tool so that rotation dictates the check steps, and repeated poses / parking on the last stroke pose, check steps, cost limit, recursion depth, include-interpolation, seven obstacle layouts incl. one that blocks an arm branch mid-stroke only, safety, limits) plus ~1k scenarios run one at a time under the event recorder: every Ok path is judged for collision freedom (collides + brute-force pairs), limits, start configuration, ordered LAND/TRACE/PARK embedding with poses reproduced by the reference FK, linearity of LIN_INTERP waypoints, transition cost, and absence of LIN_INTERP when not requested. E4: 2-strategy races explored completely, 4-strategy races (one of them with strategies that really fail mid-stroke) with preemption bound 1 (thorough 2); success must be schedule independent; 20 rayon runs per scenario in pools 1..16 must reproduce explored per-strategy hook sequences.",
    note="RNG draws are scripted to a constant so RRT legs are deterministic; the controller is sequentially consistent (the flag is monotone, see DESIGN 8); the cost clause is judged only when no RRT gap closing can be inside the Cartesian part."),
  "C13": dict(engine="E3-env", ref="5/C13",
    technique="exhaustive tree exploration of scripted sample sequences (ScriptedRng hook) of the real dual-tree RRT, default-first with every deviation at every consumed position; cancellation injected inside every consumed sample",
-   text="Layouts {free, pillar, plates around the tool} x limits {wide, window, wrapping, non-wrapping beyond +-pi} x step sizes (0.05..2.5 rad, and 2.5e-4 / 8e-4 rad on a pair 0.03 rad apart) x try budgets 0..5 (thorough 6) x alphabet of 5 (thorough 7) joint-space samples: every Ok path starts/ends bit-exactly at start/goal, every node is reported free, consecutive nodes are within 3 steps, nodes are within non-wrapping limits; a flag raised before the call gives Err, a flag raised inside sample k lets at most that iteration finish.",
+   text="Layouts {free, pillar, plates around the tool} x limits {wide, window, wrapping, non-wrapping beyond +-pi} x step sizes (0.05..2.5 rad, and 2.5e-4 / 8e-4 rad on a pair 0.03 rad apart; goal equal to the start exactly and up to 1e-17 residues) x try budgets 0..5 (thorough 6) x alphabet of 5 (thorough 7) joint-space samples: every Ok path starts/ends bit-exactly at start/goal, every node is reported free, consecutive nodes are within 3 steps, nodes are within non-wrapping limits; a flag raised before the call gives Err, a flag raised inside sample k lets at most that iteration finish.",
    note="Runs on plain OS threads (the thread-local script must not be clobbered by rayon work stealing); every 16th execution is replayed and compared."),
  "C14": dict(engine="E1-lattice", ref="5/C14",
    technique="bounded-exhaustive enumeration of cells x initial postures x from/to vectors against the 12-candidate definition with the full collision check as oracle; pools 1..16",
-   text="The offered neighbours must equal, as a multiset, the single-joint substitutions that arc membership accepts and the full collides() of the same robot reports free; from/to vectors drive each joint into free space, self-collision, the base, the environment or out of limits; cells with/without base and tool, a moved base, and a J2->J3 parallelogram on top (where the driven joint bends the chain behind it).",
+   text="The offered neighbours must equal, as a multiset, the single-joint substitutions that arc membership accepts and the full collides() of the same robot reports free; from/to vectors drive each joint into free space, self-collision, the base, the environment or out of limits; cells with/without base and tool, a moved base, and a J2->J3 parallelogram on top (where the driven joint bends the chain behind it); from/to symmetric about the initial vector, equal to each other, or both on one side.",
    note="The full collision check is tied to the pair oracle by C10."),
  "C15": dict(engine="E1-lattice", ref="5/C15",
    technique="lattice enumeration of postures/stacks/steps; the private Jacobian is reconstructed row by row through the public API and compared with the geometric Jacobian of the reference link model; linear maps decided on a basis",
-   text="Robots unconstrained and constrained with each joint exactly on its upper / lower limit; stacks bare/tool/base/base+tool and three parallelogram stacks (ratios 1, 0.5, -0.5; reference by the chain rule), a third of the postures with whole turns added; J (via torques_from_vector(e_k)) vs axis x lever / axis from FK_ref within eps*reach + 4e-15*reach/eps; J_geo * velocities(X) = X on the 6 basis twists and 2 mixed ones; torques = J_geo^T F; isometry, vector and fixed entry points agree.",
+   text="Robots unconstrained and constrained with each joint exactly on its upper / lower limit; stacks bare/tool/base/base+tool and three parallelogram stacks (ratios 1, 0.5, -0.5; reference by the chain rule), a third of the postures with whole turns added; J (via torques_from_vector(e_k)) vs axis x lever / axis from FK_ref within eps*reach + 4e-15*reach/eps; J_geo * velocities(X) = X on the 6 basis twists and 2 mixed ones; torques = J_geo^T F; isometry, vector and fixed entry points agree. Threshold sweep (differencing step inside 1e-7..1e-5, joints -> 0 / +-pi): the axis that approaches a special value is enumerated along a magnitude ladder (13 per decade, 1e-12..1e-2, both sides, plus neighbours/squares/roots of the float literals of the source file under test).",
    note="Postures with condition number >= 1e3 are skipped (counted)."),
  "C16": dict(engine="E1-lattice", ref="5/C16",
    technique="exhaustive enumeration of all 30 (driven, coupled) pairs x scalings x stack variants on the real wrapper against the substitution model",
-   text="forward and link poses bit-equal to the inner robot at the substituted joint vector and equal to the composed reference; every answer of the four inverse entry points maps back onto the request; P over P composes.",
+   text="forward and link poses bit-equal to the inner robot at the substituted joint vector and equal to the composed reference; every answer of the four inverse entry points maps back onto the request; P over P composes. Threshold sweep (scaling -> 0, +-1, +-2; driven/coupled joint -> 0): the axis that approaches a special value is enumerated along a magnitude ladder (13 per decade, 1e-12..1e-2, both sides, plus neighbours/squares/roots of the float literals of the source file under test).",
    note="Trusted: FK_ref, stack model."),
  "C17": dict(engine="E1-lattice", ref="5/C17",
    technique="exhaustive enumeration of triangles x rigid motions x per-point perturbations around the 5 mm tolerance, degenerate triples, and forward_transformed cases",
-   text="Exact images: frame maps the points, is a proper rotation and equals the generating motion; perturbations of 6/50 mm are rejected as NotIsometry, 1/4 mm accepted; collinear/coincident triples give ColinearPoints with the right side; Frame::translation; forward_transformed pose, soundness and order.",
+   text="Exact images: frame maps the points, is a proper rotation and equals the generating motion; perturbations of 6/50 mm are rejected as NotIsometry, 1/4 mm accepted; collinear/coincident triples give ColinearPoints with the right side; Frame::translation; forward_transformed pose, soundness and order. Threshold sweep (rotation angle -> 0 / half turn, perturbation -> 5 mm, triangle height -> 0): the axis that approaches a special value is enumerated along a magnitude ladder (13 per decade, 1e-12..1e-2, both sides, plus neighbours/squares/roots of the float literals of the source file under test).",
    note="Tolerances scale with the distance from the origin and the triangle height (conditioning)."),
  "C18": dict(engine="E3-env", ref="5/C18",
    technique="exhaustive enumeration of scripted RNG answers (ScriptedRng hook) over a lattice of ranges; piecewise-linear argument makes the draw alphabet complete per range",
-   text="(from,to) on a 5-degree (thorough 3-degree) lattice of [-360,360]^2 x unit draws {0, 2^-52, i/64, 1-2^-52, both sides of the segment switch point} x construction histories {new, from_degrees, update_range over five earlier ranges}; the real sampler consumes exactly these raw draws; result must lie on the arc and be accepted by compliant(); no panic.",
+   text="(from,to) on a 5-degree (thorough 3-degree) lattice of [-360,360]^2 x unit draws {0, 2^-52, i/64, 1-2^-52, both sides of the segment switch point} x construction histories {new, from_degrees, update_range over five earlier ranges}; the real sampler consumes exactly these raw draws; result must lie on the arc and be accepted by compliant(); no panic. Threshold sweep (range width -> 0 / full turn, signed zeros): the axis that approaches a special value is enumerated along a magnitude ladder (13 per decade, 1e-12..1e-2, both sides, plus neighbours/squares/roots of the float literals of the source file under test).",
    note="Relies on rand 0.9's u64 -> f64 mapping ((r >> 12) / 2^52), guarded by the draw-count check."),
  "C19": dict(engine="E1-lattice", ref="5/C19",
    technique="exhaustive enumeration of parameter records, documented syntax variants, all 1-/2-edit deviations of the documented file and all token strings up to a length bound",
@@ -81,7 +81,7 @@ CHECKS = {
    note="J6 sign of a 5-DOF record is not compared (the loader documents that it blocks it)."),
  "C20": dict(engine="E1-lattice", ref="5/C20",
    technique="exhaustive enumeration of generated URDF/xacro descriptions over layout, naming, nesting and joint-order permutations, with rotating sign/limit/copy axes; error-path enumeration",
-   text="Extracted parameters equal the printed decimals, signs follow the axes, limits follow each syntax (six uniform styles and three mixed per joint, so a joint without <limit> follows limited siblings in every declaration order), the built solver's compliance equals arc membership (no <limit> => unconstrained), conflicting copies are errors; missing joints and token corruptions never panic.",
+   text="Extracted parameters equal the printed decimals, signs follow the axes, limits follow each syntax (six uniform styles and three mixed per joint, so a joint without <limit> follows limited siblings in every declaration order; parameter records incl. exact relations b == c2, c3 == -a2, all equal), the built solver's compliance equals arc membership (no <limit> => unconstrained), conflicting copies are errors; missing joints and token corruptions never panic.",
    note="5-DOF detection is not judged (not demanded by the statement)."),
 }
 
